@@ -103,6 +103,16 @@ def check(ctx):
                     ok = all(e[0] == "child" or e[3] for e in em)
                     if not ok:
                         detail = "sequence iteration not tolerant of None"
+                if ok and which == "__iter__":
+                    # iteration protocol: __iter__ must hand back an ITERATOR - a generator function (it contains a yield, so calling it makes a generator:
+                    # the `return; yield` idiom is the empty one) or `return iter(...)`.  Returning a tuple / list makes iter(node) raise TypeError.
+                    fn_ = m.methods.get(which)
+                    own = [x for x in ast.walk(fn_) if S.enclosing_function(x) is fn_]
+                    is_gen = any(isinstance(x, (ast.Yield, ast.YieldFrom)) for x in own)
+                    rets = [x for x in own if isinstance(x, ast.Return) and x.value is not None]
+                    ok = (is_gen and not rets) or (not is_gen and rets and all(isinstance(r.value, ast.Call) and isinstance(r.value.func, ast.Name) and r.value.func.id == "iter" for r in rets))
+                    if not ok:
+                        detail = "does not return an iterator: it is neither a generator function (no yield) nor `return iter(...)`, so `for child in node` / list(node) raises TypeError"
             ob("R-C14.1", name, which, ok, detail)
             if not ok:
                 viol("R-C14.1", name, which, f"{which}() {detail or 'is missing'}", m.methods.get(which))
